@@ -266,7 +266,7 @@ structure Hop where
   cache : Cache := []
   lan : Nat
   stations : List Station
-deriving Repr
+deriving DecidableEq, Repr
 
 def hopsTree : List Hop → Routers
   | [] => .nil
@@ -809,5 +809,393 @@ theorem wave (d : Nat) (hd : d < 65536) (hs : List Hop) :
         by_cases e : d = h2.lan <;> simp [e]
       rw [hf]
       simp [unitWorld, hopsWorld, hdl, routerSt, List.append_assoc]
+
+end BacVerif.C06
+
+namespace BacVerif.C06
+open BacVerif BacVerif.Route
+
+theorem hopsTree_lans (hops : List Hop) : (hopsTree hops).lans = hops.map (·.lan) := by
+  induction hops with
+  | nil => rfl
+  | cons h hs ih => simp [hopsTree, Routers.lans, Downs.lans, NetTree.lans, ih]
+
+theorem hopsTree_height (hops : List Hop) : (hopsTree hops).height = hops.length := by
+  induction hops with
+  | nil => rfl
+  | cons h hs ih => simp [hopsTree, Routers.height, Downs.height, NetTree.height, ih]
+
+theorem hopsTree_upMacs (hops : List Hop) : (hopsTree hops).upMacs = (hops.head?.map (·.upMac)).toList := by
+  cases hops with
+  | nil => rfl
+  | cons h hs => simp [hopsTree, Routers.upMacs]
+
+theorem hopsTree_nextHop (d : Nat) (h : Hop) (hs : List Hop) (hd : d ∈ (h :: hs).map (·.lan)) :
+    (hopsTree (h :: hs)).nextHop d = some h.upMac := by
+  have : d ∈ Downs.lans .nil ++ (Downs.cons h.downAid h.downMac (.mk h.lan h.stations (hopsTree hs)) .nil).lans := by
+    simp only [Downs.lans, NetTree.lans, hopsTree_lans, List.nil_append, List.append_nil]
+    simpa using hd
+  simp [hopsTree, Routers.nextHop, this]
+
+theorem hopsTree_wf_skel (hops : List Hop) : (hopsTree (hops.map Hop.skel)).wf = (hopsTree hops).wf := by
+  induction hops with
+  | nil => rfl
+  | cons h hs ih =>
+    simp only [List.map_cons, hopsTree, Routers.wf, Downs.wf, NetTree.wf, Downs.aids, ih, hopsTree_upMacs]
+    have hm : (fun x : Station => x.mac) ∘ Station.skel = fun x => x.mac := by
+      funext x; rfl
+    cases hs with
+    | nil => simp [Hop.skel, List.map_map, hm]
+    | cons h2 hs2 => simp [Hop.skel, List.map_map, hm]
+
+theorem lineTree_wf_skel (lan : Nat) (S S' : List Station) (hops hops' : List Hop) (up : List Mac)
+    (hS : S'.map (·.mac) = S.map (·.mac)) (hh : hops'.map Hop.skel = hops.map Hop.skel) :
+    (lineTree lan S' hops').wf up = (lineTree lan S hops).wf up := by
+  have h1 : (hopsTree hops').wf = (hopsTree hops).wf := by
+    rw [← hopsTree_wf_skel hops', ← hopsTree_wf_skel hops, hh]
+  have h2 : (hopsTree hops').upMacs = (hopsTree hops).upMacs := by
+    rw [hopsTree_upMacs, hopsTree_upMacs]
+    cases hops' <;> cases hops <;> simp_all [Hop.skel]
+  simp only [lineTree, NetTree.wf, hS, h1, h2]
+
+end BacVerif.C06
+
+namespace BacVerif.C06
+open BacVerif BacVerif.Route
+
+theorem Cache.get_update_same (c : Cache) (k : Option Nat) (m : Mac) (d : Nat) :
+    (c.update k m [d]).get k d = some m := by
+  simp [Cache.update, Cache.set1, Cache.get, List.find?_cons]
+
+theorem warm_notin (d : Nat) (hops : List Hop) (h : d ∉ hops.map (·.lan)) : (hopsTree hops).warm d = true := by
+  induction hops with
+  | nil => rfl
+  | cons x hs ih =>
+    simp only [List.map_cons, List.mem_cons, not_or] at h
+    have : d ∉ (Downs.cons x.downAid x.downMac (.mk x.lan x.stations (hopsTree hs)) .nil).lans := by
+      simp only [Downs.lans, NetTree.lans, hopsTree_lans, List.append_nil, List.mem_cons, not_or]
+      exact h
+    simp only [Downs.lans, List.append_nil] at this
+    simp [hopsTree, Routers.warm, Downs.lans, this]
+
+theorem warm_line (d : Nat) (hops : List Hop) : ∀ (P : Nat) (u : Mac) (sIn : Option (Nat × Mac)),
+    d ∈ hops.map (·.lan) → (P :: hops.map (·.lan)).Nodup →
+    (hopsTree (warmHops d P u sIn hops)).warm d = true := by
+  induction hops with
+  | nil => intro P u sIn hd; simp at hd
+  | cons h hs ih =>
+    intro P u sIn hd hnd
+    simp only [List.map_cons, List.nodup_cons, List.mem_cons, not_or] at hnd
+    obtain ⟨⟨hPh, hPhs⟩, hhhs, hnd2⟩ := hnd
+    by_cases hdl : d = h.lan
+    · have hw : warmHops d P u sIn (h :: hs) = { h with cache := learnC h.cache (some P) u sIn } :: hs := by
+        unfold warmHops; simp [hdl]
+      rw [hw]
+      have hn : d ∉ hs.map (·.lan) := hdl ▸ hhhs
+      simp [hopsTree, Routers.warm, Downs.warm, Downs.lans, NetTree.lans, NetTree.lan, NetTree.warm, hdl,
+        warm_notin h.lan hs (hdl ▸ hn)]
+    · have hd2 : d ∈ hs.map (·.lan) := by
+        simp only [List.map_cons, List.mem_cons] at hd
+        exact hd.resolve_left hdl
+      cases hs with
+      | nil => simp at hd2
+      | cons h2 hs2 =>
+        have hw : warmHops d P u sIn (h :: h2 :: hs2) =
+            { h with cache := (learnC h.cache (some P) u sIn).update (some h.lan) h2.upMac [d],
+                     stations := (h.stations.map (Station.learn h.lan h.downMac (some (sIn.getD (P, u))))).map
+                        (fun s => if d = h2.lan then s else s.learnD h.lan h2.upMac d) }
+              :: warmHops d h.lan h.downMac (some (sIn.getD (P, u))) (h2 :: hs2) := by
+          conv => lhs; unfold warmHops
+          simp [hdl]
+        rw [hw]
+        have ih' := ih h.lan h.downMac (some (sIn.getD (P, u))) hd2
+          (by simp only [List.nodup_cons]; exact ⟨hhhs, hnd2⟩)
+        obtain ⟨h2', tl', hwt, hup2, hlan2⟩ := warmHops_head d h.lan h.downMac (some (sIn.getD (P, u))) h2 hs2
+        have hlans : (warmHops d h.lan h.downMac (some (sIn.getD (P, u))) (h2 :: hs2)).map (·.lan) =
+            (h2 :: hs2).map (·.lan) := same_lans (warmHops_skel d _ _ _ _)
+        have hnh : (hopsTree (warmHops d h.lan h.downMac (some (sIn.getD (P, u))) (h2 :: hs2))).nextHop d =
+            some h2.upMac := by
+          rw [hwt] at hlans ⊢
+          rw [hopsTree_nextHop d h2' tl' (by rw [hlans]; exact hd2), hup2]
+        have hdin : d ∈ h.lan :: (hopsTree (warmHops d h.lan h.downMac (some (sIn.getD (P, u))) (h2 :: hs2))).lans := by
+          rw [hopsTree_lans, hlans]
+          exact List.mem_cons_of_mem _ hd2
+        simp only [hopsTree, Routers.warm, Downs.warm, Downs.lans, NetTree.lans, NetTree.lan, NetTree.warm,
+          NetTree.routers, List.append_nil, hdin, hnh, allPorts, Downs.ports, List.nil_append,
+          List.not_mem_nil, if_false, if_true, Bool.and_true, ih']
+        simp [findPath, mkPort, Cache.get_update_same, hdl]
+
+end BacVerif.C06
+
+namespace BacVerif.C06
+open BacVerif BacVerif.Route
+
+theorem Station.learn_none (lan : Nat) (u : Mac) (s : Station) : Station.learn lan u none s = s := by
+  cases s; rfl
+
+/-- a cold station originates a packet for a network elsewhere: parked, Who-Is-Router broadcast -/
+theorem originate_cold (lan0 : Nat) (A : Station) (dd : Dadr) (er : Bool) (prio : Nat) (data : Bytes)
+    (hgb : dd ≠ .gb) (hdl : dd.net ≠ lan0) (hA : A.cache.get (A.adapter lan0).net dd.net = none) :
+    originate (stationSt lan0 [] A) dd.toAddr er prio data =
+      (stationSt lan0 [(dd.net, [rtp (some dd) none none er prio data 255])] A,
+       [.send (A.adapter lan0) .bcast (whoIsP none dd.net)]) := by
+  have hloc : (stationSt lan0 [] A).node.loc = some (A.adapter lan0) := station_loc lan0 A
+  have hnet : (some dd.net == (A.adapter lan0).net) = false := by
+    simp only [Station.adapter]
+    cases A.knowsNet <;> simp [hdl]
+  have hfp : findPath (stationSt lan0 [] A).cache (stationSt lan0 [] A).node.adapters dd.net = none := by
+    simp [stationSt, Station.tnode, findPath, hA]
+  cases dd with
+  | gb => exact absurd rfl hgb
+  | rs d m =>
+    simp only [Dadr.net] at hnet hfp
+    simp only [originate, Dadr.toAddr, hloc, hnet, hfp]
+    simp [stationSt, Station.tnode, rtp, pendingAdd, whoIs, whoIsP, Dadr.net]
+  | rb d =>
+    simp only [Dadr.net] at hnet hfp
+    simp only [originate, Dadr.toAddr, hloc, hnet, hfp]
+    simp [stationSt, Station.tnode, rtp, pendingAdd, whoIs, whoIsP, Dadr.net]
+
+/-- the asker hears the I-Am-Router: it learns the path and releases the parked packet to the
+    announcing router; the other stations of its network learn too if it was a broadcast -/
+theorem asker_released (d : Nat) (hd : d < 65536) (lan0 : Nat) (A : Station) (q : Npci) (S0 : List Station)
+    (hops : List Hop) (m1 : Mac) (lk : Link)
+    (hlk : lk = .to A.mac ∨ lk = .bcast) (hAm : A.mac ≠ m1)
+    (hS0 : ∀ s ∈ S0, s.mac ≠ A.mac ∧ s.mac ≠ m1)
+    (hhead : ∀ x ∈ hops.head?, x.upMac = m1) (hl : lan0 ∉ hops.map (·.lan)) :
+    stepWorld (stationSt lan0 [(d, [q])] A :: unitWorld lan0 S0 hops) ⟨lan0, m1, lk, iAmP d⟩ =
+      (stationSt lan0 [] (A.learnD lan0 m1 d) ::
+        unitWorld lan0 (S0.map (fun s => if lk = .bcast then s.learnD lan0 m1 d else s)) hops,
+       [⟨lan0, A.mac, .to m1, q⟩], []) := by
+  have hh : (stationSt lan0 [(d, [q])] A).node.adapters.filter (hears ⟨lan0, m1, lk, iAmP d⟩) = [A.adapter lan0] := by
+    rw [station_hears]
+    rcases hlk with e | e <;> subst e <;> simp [macOk, Station.adapter, hAm]
+  have hA := station_iAm lan0 A [(d, [q])] m1 lk d hd
+  have hdeep := stepWorld_deaf (hopsWorld lan0 hops) ⟨lan0, m1, lk, iAmP d⟩
+    (hopsWorld_deaf hops lan0 _ hl (fun _ x hx => by
+      rcases hlk with e | e
+      · exact Or.inr ⟨A.mac, e, by rw [hhead x hx]; exact hAm⟩
+      · exact Or.inl ⟨e, (hhead x hx).symm⟩))
+  have hS : stepWorld (S0.map (stationSt lan0 [])) ⟨lan0, m1, lk, iAmP d⟩ =
+      ((S0.map (fun s => if lk = .bcast then s.learnD lan0 m1 d else s)).map (stationSt lan0 []), [], []) := by
+    rcases hlk with e | e
+    · subst e
+      simp only [reduceCtorEq, if_false, List.map_id']
+      exact stepWorld_deaf _ _ (stations_deaf lan0 S0 _ (Or.inr ⟨A.mac, rfl, fun s hs => (hS0 s hs).1⟩))
+    · subst e
+      simp only [if_true]
+      exact stations_iAm lan0 S0 m1 d hd (fun s hs => (hS0 s hs).2)
+  rw [stepWorld_cons, stepNode_one _ _ _ hh]
+  simp only [stationSt] at hA ⊢
+  rw [hA]
+  simp only [unitWorld]
+  rw [stepWorld_append, hS, hdeep]
+  simp [release, pendingTake, originPackets, upsOf, Station.learnD, Station.tnode, Station.adapter, stationSt]
+  exact ⟨rfl, rfl, rfl⟩
+
+end BacVerif.C06
+
+namespace BacVerif.C06
+open BacVerif BacVerif.Route
+
+/-- the line after the discovery started by station `A` of network `lan0` -/
+def warmLine (lan0 : Nat) (A : Station) (S0 : List Station) (h : Hop) (hs : List Hop) (d : Nat) : NetTree :=
+  lineTree lan0 (A.learnD lan0 h.upMac d :: S0.map (fun s => if d = h.lan then s else s.learnD lan0 h.upMac d))
+    (warmHops d lan0 A.mac none (h :: hs))
+
+/-- **discovery_warms_path** (line of networks, one discovery at a time): from an ALL-COLD line a
+    packet for a network `d` behind one or more routers is parked, the Who-Is-Router /
+    I-Am-Router exchange settles after finitely many frames, nothing has been handed to any
+    application, the internetwork is then exactly `warmLine` (the routers up to the one connected
+    to `d`, the stations that overheard the exchange and the asker have learned; nobody else has
+    changed), nothing is parked any more and the only frame in flight is the released packet,
+    addressed to the first router -/
+theorem discovery_line (lan0 : Nat) (A : Station) (S0 : List Station) (h : Hop) (hs : List Hop) (dd : Dadr)
+    (er : Bool) (prio : Nat) (data : Bytes)
+    (hgb : dd ≠ .gb) (hdin : dd.net ∈ (h :: hs).map (·.lan)) (hd16 : dd.net < 65536)
+    (hnd : (lan0 :: (h :: hs).map (·.lan)).Nodup) (hcold : ∀ x ∈ h :: hs, x.cache = [])
+    (hA : A.cache.get (A.adapter lan0).net dd.net = none) (hok : lineOk A.mac S0 (h :: hs)) :
+    originate (stationSt lan0 [] A) dd.toAddr er prio data =
+      (stationSt lan0 [(dd.net, [rtp (some dd) none none er prio data 255])] A,
+       [.send (A.adapter lan0) .bcast (whoIsP none dd.net)]) ∧
+    ∃ n, runWorld n
+        (stationSt lan0 [(dd.net, [rtp (some dd) none none er prio data 255])] A :: unitWorld lan0 S0 (h :: hs))
+        [⟨lan0, A.mac, .bcast, whoIsP none dd.net⟩] [] =
+      ((warmLine lan0 A S0 h hs dd.net).nodes.map mkSt,
+       [⟨lan0, A.mac, .to h.upMac, rtp (some dd) none none er prio data 255⟩], []) := by
+  have hnd0 := hnd
+  simp only [List.nodup_cons] at hnd0
+  have hdl : dd.net ≠ lan0 := fun e => hnd0.1 (e ▸ hdin)
+  refine ⟨originate_cold lan0 A dd er prio data hgb hdl hA, ?_⟩
+  have hq : quietOn ([stationSt lan0 [(dd.net, [rtp (some dd) none none er prio data 255])] A] ++ [])
+      (lan0 :: (h :: hs).map (·.lan)) lan0 A.mac := by
+    intro s hsx a ha _
+    simp only [List.append_nil, List.mem_singleton] at hsx
+    subst hsx
+    simp only [stationSt, Station.tnode, List.mem_singleton] at ha
+    subst ha
+    exact ⟨rfl, rfl⟩
+  obtain ⟨n, hrun⟩ := wave dd.net hd16 hs h lan0 A.mac none S0
+    [stationSt lan0 [(dd.net, [rtp (some dd) none none er prio data 255])] A] [] hdin hnd hcold
+    (fun s0 e => by cases e) hok hq
+  have hid : S0.map (Station.learn lan0 A.mac none) = S0 := by
+    rw [List.map_congr_left (fun s _ => Station.learn_none lan0 A.mac s)]
+    simp
+  simp only [List.append_nil, List.singleton_append, hid] at hrun
+  obtain ⟨h', tl', hw, hup, _⟩ := warmHops_head dd.net lan0 A.mac none h hs
+  have hlans : (warmHops dd.net lan0 A.mac none (h :: hs)).map (·.lan) = (h :: hs).map (·.lan) :=
+    same_lans (warmHops_skel dd.net _ _ _ _)
+  obtain ⟨hS0, hum, _, _⟩ := hok
+  have hrel := asker_released dd.net hd16 lan0 A (rtp (some dd) none none er prio data 255) S0
+    (warmHops dd.net lan0 A.mac none (h :: hs)) h.upMac
+    (if dd.net = h.lan then Link.to A.mac else Link.bcast)
+    (by by_cases e : dd.net = h.lan <;> simp [e]) (Ne.symm hum) hS0
+    (by rw [hw]; intro x hx; simp at hx; subst hx; exact hup)
+    (by rw [hlans]; exact hnd0.1)
+  refine ⟨n + 1, ?_⟩
+  rw [runWorld_add n 1, hrun]
+  simp only [runWorld_one]
+  rw [hrel]
+  have hf : (fun s => if (if dd.net = h.lan then Link.to A.mac else Link.bcast) = Link.bcast
+        then Station.learnD lan0 h.upMac dd.net s else s) =
+      (fun s => if dd.net = h.lan then s else Station.learnD lan0 h.upMac dd.net s) := by
+    funext s
+    by_cases e : dd.net = h.lan <;> simp [e]
+  rw [hf, warmLine, lineTree_world]
+  simp [unitWorld]
+
+end BacVerif.C06
+
+namespace BacVerif.C06
+open BacVerif BacVerif.Route
+
+theorem hopsTree_stationsOn (d : Nat) (hops : List Hop) (hnd : (hops.map (·.lan)).Nodup)
+    (x : Hop) (hx : x ∈ hops) (hxl : x.lan = d) : (hopsTree hops).stationsOn d = x.stations := by
+  induction hops with
+  | nil => simp at hx
+  | cons h hs ih =>
+    simp only [List.map_cons, List.nodup_cons] at hnd
+    simp only [List.mem_cons] at hx
+    have hsub : (NetTree.mk h.lan h.stations (hopsTree hs)).lans = h.lan :: hs.map (·.lan) := by
+      simp [NetTree.lans, hopsTree_lans]
+    rcases hx with rfl | hx
+    · subst hxl
+      simp [hopsTree, Routers.stationsOn, Downs.stationsOn, Downs.lans, NetTree.stationsOn, hsub]
+    · have hdin : d ∈ hs.map (·.lan) := hxl ▸ List.mem_map_of_mem hx
+      have hne : d ≠ h.lan := fun e => hnd.1 (e ▸ hdin)
+      simp [hopsTree, Routers.stationsOn, Downs.stationsOn, Downs.lans, NetTree.stationsOn, hsub, hdin, hne,
+        ih hnd.2 hx]
+
+theorem skel_mem {a b : List Hop} (h : a.map Hop.skel = b.map Hop.skel) (x : Hop) (hx : x ∈ b) :
+    ∃ x' ∈ a, x'.skel = x.skel := by
+  have : x.skel ∈ a.map Hop.skel := h ▸ List.mem_map_of_mem hx
+  obtain ⟨x', hx', e⟩ := List.mem_map.mp this
+  exact ⟨x', hx', e⟩
+
+theorem skel_station {x x' : Hop} (h : x'.skel = x.skel) : x'.lan = x.lan ∧
+    x'.stations.map (·.mac) = x.stations.map (·.mac) := by
+  have h1 : x'.skel.lan = x.skel.lan := by rw [h]
+  have h2 : x'.skel.stations = x.skel.stations := by rw [h]
+  refine ⟨h1, ?_⟩
+  simp only [Hop.skel] at h2
+  have := congrArg (List.map (·.mac)) h2
+  have hm : (fun x : Station => x.mac) ∘ Station.skel = fun x => x.mac := by
+    funext x; rfl
+  simpa [List.map_map, hm] using this
+
+/-- the hypotheses of the warm theorems hold on the line the discovery leaves behind -/
+theorem cold_line_routed (lan0 : Nat) (A : Station) (S0 : List Station) (h : Hop) (hs : List Hop) (dd : Dadr)
+    (er : Bool) (prio : Nat) (data : Bytes)
+    (hgb : dd ≠ .gb) (hdin : dd.net ∈ (h :: hs).map (·.lan))
+    (hnd : (lan0 :: (h :: hs).map (·.lan)).Nodup)
+    (hwf : (lineTree lan0 (A :: S0) (h :: hs)).wf [] = true) (hlen : (h :: hs).length ≤ 255)
+    (htgt : ∀ m, dd = .rs dd.net m → ∃ x ∈ h :: hs, x.lan = dd.net ∧ m ∈ x.stations.map (·.mac)) :
+    deliverAll (warmLine lan0 A S0 h hs dd.net).nodes
+        ⟨lan0, A.mac, .to h.upMac, rtp (some dd) none none er prio data 255⟩ =
+      rtExpect dd.net (lastLeg dd) (lan0, A.mac) er prio data ((warmLine lan0 A S0 h hs dd.net).stationsOn dd.net) := by
+  have hskel := warmHops_skel dd.net (h :: hs) lan0 A.mac none
+  have hlans : (warmHops dd.net lan0 A.mac none (h :: hs)).map (·.lan) = (h :: hs).map (·.lan) := same_lans hskel
+  obtain ⟨h', tl', hw, hup, _⟩ := warmHops_head dd.net lan0 A.mac none h hs
+  have hnd0 := hnd
+  simp only [List.nodup_cons] at hnd0
+  have hdl : dd.net ≠ lan0 := fun e => hnd0.1 (e ▸ hdin)
+  have hT : (warmLine lan0 A S0 h hs dd.net).lan = lan0 := rfl
+  have hlen' : (warmHops dd.net lan0 A.mac none (h :: hs)).length = (h :: hs).length := by
+    have := congrArg List.length hskel
+    simpa using this
+  have hnh : (warmLine lan0 A S0 h hs dd.net).routers.nextHop dd.net = some h.upMac := by
+    simp only [warmLine, lineTree, NetTree.routers]
+    rw [hw] at hlans ⊢
+    rw [hopsTree_nextHop dd.net h' tl' (by rw [hlans]; exact hdin), hup]
+  have hoc : (A.learnD lan0 h.upMac dd.net).cache.get ((A.learnD lan0 h.upMac dd.net).adapter lan0).net dd.net =
+      some h.upMac := by
+    simp only [Station.learnD, Station.adapter]
+    exact Cache.get_update_same _ _ _ _
+  have := tree_routed (warmLine lan0 A S0 h hs dd.net) (A.learnD lan0 h.upMac dd.net) dd h.upMac er prio data
+    (by simp [warmLine, lineTree, NetTree.stations])
+    (by simp only [warmLine, lineTree, NetTree.lans, hopsTree_lans, hlans]; exact hnd)
+    (by
+      rw [warmLine, lineTree_wf_skel lan0 (A :: S0) _ (h :: hs) _ [] ?_ hskel]
+      · exact hwf
+      · simp only [List.map_cons, List.map_map]
+        congr 1
+        apply List.map_congr_left
+        intro s _
+        simp only [Function.comp]
+        split <;> simp [Station.learnD])
+    (by simp only [warmLine, lineTree, NetTree.height, hopsTree_height, hlen']; exact hlen)
+    hgb
+    (by simp only [warmLine, lineTree, NetTree.routers, hopsTree_lans, hlans]; exact hdin)
+    hnh hoc
+    (by
+      simp only [warmLine, lineTree, NetTree.warm]
+      exact warm_line dd.net (h :: hs) lan0 A.mac none hdin hnd)
+    (by
+      intro m hm
+      obtain ⟨x, hx, hxl, hmx⟩ := htgt m hm
+      obtain ⟨x', hx', hsk⟩ := skel_mem hskel x hx
+      obtain ⟨hl', hst'⟩ := skel_station hsk
+      have hso : (warmLine lan0 A S0 h hs dd.net).stationsOn dd.net = x'.stations := by
+        simp only [warmLine, lineTree, NetTree.stationsOn, hdl, if_false]
+        exact hopsTree_stationsOn dd.net _ (by rw [hlans]; exact hnd0.2) x' hx' (hl'.trans hxl)
+      rw [hso]
+      rw [← hst'] at hmx
+      obtain ⟨t, ht, rfl⟩ := List.mem_map.mp hmx
+      exact ⟨t, ht, rfl⟩)
+  unfold routedDeliveries at this
+  rw [hT, originate_routed lan0 _ dd h.upMac er prio data hgb hdl hoc] at this
+  simpa [Station.learnD] using this
+
+end BacVerif.C06
+
+namespace BacVerif.C06
+open BacVerif BacVerif.Route
+
+theorem wf_lineOk (hops : List Hop) : ∀ (lan : Nat) (u : Mac) (S : List Station),
+    (NetTree.mk lan S (hopsTree hops)).wf [u] = true → lineOk u S hops := by
+  induction hops with
+  | nil =>
+    intro lan u S hwf
+    simp only [NetTree.wf, Bool.and_eq_true, decide_eq_true_eq] at hwf
+    obtain ⟨h1, _⟩ := macs_facts [u] S _ hwf.1
+    exact fun s hs => h1 u (by simp) s hs
+  | cons h hs ih =>
+    intro lan u S hwf
+    simp only [NetTree.wf, Bool.and_eq_true, decide_eq_true_eq] at hwf
+    obtain ⟨h1, h2, _, _, h5⟩ := macs_facts [u] S _ hwf.1
+    have hr := hwf.2
+    simp only [hopsTree, Routers.wf, Downs.wf, Downs.aids, Bool.and_eq_true, decide_eq_true_eq,
+      List.nil_append, List.nodup_cons, List.mem_singleton, List.contains_iff_mem, List.mem_cons,
+      List.not_mem_nil, or_false] at hr
+    obtain ⟨⟨⟨⟨⟨hne, _⟩, hla⟩, _⟩, hsub, _⟩, _⟩ := hr
+    have hup : (hopsTree (h :: hs)).upMacs = [h.upMac] := by simp [hopsTree_upMacs]
+    rw [hup] at h2 h5
+    refine ⟨fun s hs' => ⟨h1 u (by simp) s hs', fun e => h5 s hs' (by simp [e])⟩,
+      fun e => h2 u (by simp) (by simp [e]), ⟨hne, hla⟩, ih h.lan h.downMac h.stations hsub⟩
+
+theorem wf_lineOk_top (lan0 : Nat) (A : Station) (S0 : List Station) (hops : List Hop)
+    (hwf : (lineTree lan0 (A :: S0) hops).wf [] = true) : lineOk A.mac S0 hops := by
+  apply wf_lineOk hops lan0 A.mac S0
+  simpa [lineTree, NetTree.wf] using hwf
 
 end BacVerif.C06
